@@ -207,8 +207,35 @@ theorem c12_response_reported_nats (req rep : List Op) (errp : List (List Op))
     (hq : Writes req) (hqne : req ≠ []) (hreq : ¬ Over natsMaxMessageSize req)
     (hp : Writes rep) (hpne : rep ≠ []) (hover : Over natsMaxMessageSize rep)
     (he : SegWrites errp) (hefit : 4 + segsSize errp ≤ natsMaxMessageSize) (hepos : 0 < segsSize errp) :
-    callNats req rep errp = ⟨true, some .responseTooLarge⟩ :=
-  c12_response_reported natsTransport _ _ nats_hasLimit req rep errp hq hqne hreq hp hpne hover he hefit hepos
+    callNats req rep errp = ⟨true, some .responseTooLarge⟩ := by
+  unfold callNats
+  rw [c12_response_reported natsTransport _ _ nats_hasLimit req rep errp hq hqne hreq hp hpne hover he hefit hepos]
+
+/-- The assumption "the error reply fits" is needed, and bites with oversize response
+HEADERS: when the response header alone exceeds the server's limit, `SendReply` fails on it,
+`sendError` fails on it again and then writes the rest of the error reply without a header;
+over NATS that reply cannot be routed to its caller, who times out (observed end to end on
+the real fNatsServer / fNatsTransport by suite `c12e2e`); over a transport that hands the
+reply to the caller directly the caller gets a protocol error. Neither is 101. -/
+theorem c12_response_headers_over_limit_counterexample (req rest : List Op) (hdr : Op) (tail : List (List Op))
+    (hq : Writes req) (hqne : req ≠ []) (hreq : ¬ Over natsMaxMessageSize req)
+    (hh : hdr.isWrite = true) (hbig : natsMaxMessageSize < 4 + hdr.size)
+    (ht : SegWrites tail) (htfit : 4 + segsSize tail ≤ natsMaxMessageSize) (htpos : 0 < segsSize tail) :
+    callVia natsTransport natsMaxMessageSize req (hdr :: rest) ([hdr] :: tail) = ⟨true, some .other⟩ ∧
+    callNats req (hdr :: rest) ([hdr] :: tail) = ⟨true, some .timedOut⟩ := by
+  have hpos : 0 < natsMaxMessageSize := by unfold natsMaxMessageSize; omega
+  have hfail : (LBuf.new natsMaxMessageSize).apply hdr = (LBuf.new natsMaxMessageSize, true) := by
+    rw [LBuf.apply_write _ hdr hh, if_pos (by show 0 < natsMaxMessageSize ∧ natsMaxMessageSize < hdr.size + 4; omega)]
+    rfl
+  have h2 := sendError_fits tail (LBuf.new natsMaxMessageSize) ht
+    (by show ¬ (0 < natsMaxMessageSize ∧ natsMaxMessageSize < segsSize tail + 4); omega)
+  have hv : callVia natsTransport natsMaxMessageSize req (hdr :: rest) ([hdr] :: tail) = ⟨true, some .other⟩ := by
+    unfold callVia
+    rw [(requestLen_exact natsTransport _ nats_hasLimit req hq hqne).2 hreq]
+    simp only [sendReply, LBuf.runStop, sendError, hfail, h2, if_true, Bool.true_or]
+    have : 4 < 4 + segsSize tail := by omega
+    simp [LBuf.hasWriteData, LBuf.new, processReply, this]
+  exact ⟨hv, by unfold callNats; rw [hv]⟩
 
 /-- HTTP: the client-requested limit `r` is compared by the handler with the *unframed*
 reply; over it, the caller gets RESPONSE_TOO_LARGE (413 → 101); otherwise the reply. -/
